@@ -1,7 +1,7 @@
 (* C04 - best trials are the best COMPLETED trials in order; direction is symmetric. Statements only. *)
 From Coq Require Import List ZArith QArith Bool Sorting.Sorted Sorting.Permutation.
 Import ListNotations.
-From KT Require Import Metrics MetricsProofs Lifecycle Best HB HBSym LSym HBRun HBSymRun BayesSym.
+From KT Require Import Metrics MetricsProofs Lifecycle Best HB HBSym LSym HBRun HBSymRun BayesSym BayesEx.
 Local Close Scope Q_scope.
 
 (* get_best_trials(n) returns min(n, #trials) trials *)
@@ -89,6 +89,13 @@ Theorem C04_bayes_search_symmetric : forall (V Sc R GP RS Vec : Type) (neg : Sc 
   List.map fst (run vdef score_fn (bpopulate neg vecof veclen nfeat pess fit optimize v2v nip rpop true)
                     hook_end hook_end_abort hook_reload reissue c (init a) ops).
 Proof. exact @bayes_search_sym. Qed.
+
+(* a concrete run of the Bayesian model in which the Gaussian-process branch is reached with an ongoing trial being estimated *)
+Example C04_bayes_example :
+  ex_run true (fun v => SVal (Z.of_nat v)) = ex_run false (fun v => SVal (- Z.of_nat v)%Z) /\
+  ex_run true (fun v => SVal (Z.of_nat v)) =
+    [RTrial 0 RUNNING 10; RNone; RNone; RTrial 1 RUNNING 1; RTrial 2 RUNNING 3; RNone; RTrial 3 RUNNING 5].
+Proof. exact bayes_example. Qed.
 
 Print Assumptions C04_length.
 Print Assumptions C04_completed_first.
